@@ -39,7 +39,7 @@ package waddrmgr
 // nextAddresses registers this closure with OnCommit: only here do the in-memory next index and
 // last address of the branch move, to exactly the values computed by nextAddresses
 //@ func (*ScopedKeyManager).nextAddresses$1()
-//@   property C08 C03
+//@   property C08 C03 C09
 //@   requires wf: s != nil && s.rootManager != nil && acctInfo != nil && len(addressInfo) >= 1 && s.addrs != nil
 //@   ensures internal_tracking: internal ==> acctInfo.nextInternalIndex == nextIndex && acctInfo.lastInternalAddr == addressInfo[len(addressInfo) - 1].managedAddr
 //@       && acctInfo.nextExternalIndex == old(acctInfo.nextExternalIndex) && acctInfo.lastExternalAddr == old(acctInfo.lastExternalAddr)
